@@ -74,9 +74,13 @@ def g_chain1d(s, P):
             ikw['frozen'] = True
         if s.chance(0.2):
             ikw['theta0'] = _par(s, [1.0, 2.0])
-        if s.chance(0.2):
+        nu = _par(s, [0.5, 1.0, 2.0])
+        if s.chance(0.35):
+            # breeding ratio: only the time-dependent driver passes it to the compiled kernel
             ikw['beta'] = s.choice([1, 3.0, 0.5])
-        phi = P.add('Integration.one_pop', phi, xx, _T(s), _par(s, [0.5, 1.0, 2.0]), **ikw)
+            if not isinstance(nu, dict):
+                nu = {'$fn': 'ramp', 'a': nu, 'b': s.choice([0.0, 5.0])}
+        phi = P.add('Integration.one_pop', phi, xx, _T(s), nu, **ikw)
     n = s.choice(NS)
     skw = {}
     r = s.random()
@@ -152,7 +156,7 @@ def g_regrid(s, P):
         xx = P.add('grid_exp', pts, 4.0) if kind == 'grid_exp4' else P.add(kind, pts)
         phi = P.add('phi_1D', xx)
         ph2 = P.add('Integration.one_pop', phi, xx, s.choice([0.02, 0.05]), {'$fn': 'ramp', 'a': 1.0, 'b': s.choice([0.0, 5.0])},
-                    **({'gamma': {'$fn': 'const', 'v': -2.0}} if s.chance(0.4) else {}))
+                    **dict(({'gamma': {'$fn': 'const', 'v': -2.0}} if s.chance(0.4) else {}), **({'beta': s.choice([1, 3.0])} if s.chance(0.4) else {})))
         fs = P.add('from_phi', ph2, [s.choice([3, 4])], T(xx))
         P.steps.append({'r': '%sdrop%d' % (P.p, len(P.steps)), 'op': 'E1.forget', 'a': [xx['$'], phi['$'], ph2['$']]})
         last = fs
